@@ -331,7 +331,7 @@ def sx_float(*args):
     if isinstance(x, SReal):
         return x
     if isinstance(x, SStr):
-        raise Unsupported("float() of symbolic string")
+        return sstr.sx_float_of_str(x)
     return _b.float(x)
 
 
